@@ -15,6 +15,7 @@ from harness.export import render_scenario_tla, milli
 
 PLAN_CFG = """SPECIFICATION Spec
 CONSTANT PlanMode = "%s"
+VIEW view
 %s
 CHECK_DEADLOCK FALSE
 """
@@ -180,5 +181,209 @@ def check_c16(prop, tier, seed):
                     "exhaustive reachability of the goal in NASimEnv",
                samples=[dict(scenario=r["name"], plan=r["plan"]) for r in plans[:2]] or [dict(note="no plan")],
                per_scenario=per)
+    common.write_evidence(prop, tier, seed, "model_checking", cov, time.time() - t0, len(v.violations))
+    return v.finish()
+
+
+# ------------------------------------------------------------------------------------------------ C20
+def topo_family(tier):
+    """(name, number of subnets incl. internet, edges, sensitive subnets, hosts per subnet, direct_root)"""
+    fam = [
+        ("pub_only", 2, [(0, 1)], [1], 2, True),
+        ("chain2", 3, [(0, 1), (1, 2)], [2], 1, False),
+        ("chain3", 4, [(0, 1), (1, 2), (2, 3)], [3], 1, True),
+        ("chain3_two", 4, [(0, 1), (1, 2), (2, 3)], [2, 3], 1, False),
+        ("star2", 4, [(0, 1), (1, 2), (1, 3)], [2, 3], 1, True),
+        ("star3", 5, [(0, 1), (1, 2), (1, 3), (1, 4)], [2, 3, 4], 1, True),
+        ("tree", 5, [(0, 1), (1, 2), (2, 3), (2, 4)], [3, 4], 1, True),
+        ("two_public", 4, [(0, 1), (0, 2), (1, 3)], [2, 3], 1, True),
+        ("cycle", 4, [(0, 1), (1, 2), (2, 3), (3, 1)], [3], 1, False),
+        ("chain_rev", 4, [(0, 1), (1, 3), (3, 2)], [2], 1, True),          # route passes a higher-numbered subnet first
+        ("ring6", 5, [(0, 1), (1, 2), (2, 3), (3, 4), (4, 1)], [3], 1, True),
+    ]
+    if tier == "thorough":
+        import itertools
+        for n in (3, 4):
+            pairs = [(a, b) for a in range(n + 1) for b in range(a + 1, n + 1)]
+            for r in range(n, len(pairs) + 1):
+                for es in itertools.combinations(pairs, r):
+                    if not any(a == 0 for a, b in es):
+                        continue
+                    # connected?
+                    seen, todo = {0}, [0]
+                    while todo:
+                        x = todo.pop()
+                        for a, b in es:
+                            y = b if a == x else a if b == x else None
+                            if y is not None and y not in seen:
+                                seen.add(y)
+                                todo.append(y)
+                    if len(seen) != n + 1:
+                        continue
+                    for k in range(1, n + 1):
+                        for sens in itertools.combinations(range(1, n + 1), k):
+                            if (hash((es, sens)) % 7) and n == 4:
+                                continue
+                            fam.append(("enum_n%d_%d" % (n, len(fam)), n + 1, list(es), list(sens), 1, True))
+    return fam
+
+
+def family_spec(name, n, edges, sens, per, direct_root):
+    hosts = {}
+    for s in range(1, n):
+        for h in range(per):
+            hosts[(s, h)] = corpus.H("linux", ["ssh"], ["tomcat"], value=1 if (s + h) % 2 else 0, dvalue=1)
+    t = corpus.topo(n, edges)
+    fw = {}
+    for a in range(n):
+        for b in range(n):
+            if a != b and t[a][b]:
+                fw[(a, b)] = ["ssh"]
+    return dict(name="c20_" + name, subnets=[per] * (n - 1), topology=t, os=["linux"], services=["ssh"],
+                processes=["tomcat"], hosts=hosts,
+                exploits={"e_ssh": corpus.E("ssh", None, 1.0, 1, corpus.R if direct_root else corpus.U)},
+                privescs={"pe_tomcat": corpus.P("tomcat", "linux", 1.0, 1, corpus.R)},
+                fw=fw, sens={(s, 0): 100 for s in sens}, scan_costs=(1, 1, 1, 1), step_limit=None, bounds=None,
+                extra=[])
+
+
+def useful_explore(cs, workdir, timeout=1800):
+    tlc.prepare(workdir, render_scenario_tla(cs))
+    r = tlc.run(workdir, "NASimPlan", PLAN_CFG % ("useful", "INVARIANT GoalReport"), workers=1, timeout=timeout, heap="6g")
+    if r.errors or not r.completed:
+        raise tlc.TLCError("NASimPlan (useful) failed:\n" + r.tail(30))
+    goals = []
+    for m in re.finditer(r'<<\s*"GOAL",\s*(\d+),\s*(-?\d+),\s*<<([\d,\s]*)>>\s*>>', r.out):
+        goals.append((int(m.group(1)), int(m.group(2)), [int(x) for x in m.group(3).replace("\n", " ").split(",") if x.strip()]))
+    return goals, r
+
+
+def kf_permwalk(cs, min_comp, max_score, workdir):
+    tlc.prepare(workdir, render_scenario_tla(cs))
+    mod = ("---- MODULE HopKF ----\nEXTENDS HopWalk\nASSUME PrintT(<<\"KFSIG\", KF_PermutationWalk(%d, %d), PermWalk>>)\n====\n"
+           % (min_comp, max_score))
+    with open(os.path.join(workdir, "HopKF.tla"), "w") as fh:
+        fh.write(mod)
+    r = tlc.run(workdir, "HopKF", "SPECIFICATION DummySpec\n", workers=1, timeout=600)
+    m = re.search(r'<<\s*"KFSIG",\s*(TRUE|FALSE),\s*(\d+)\s*>>', r.out)
+    if not m:
+        raise tlc.TLCError("HopKF evaluation failed:\n" + r.tail(20))
+    return m.group(1) == "TRUE", int(m.group(2))
+
+
+def c20_job(job):
+    t0 = time.time()
+    res = dict(name=job["name"], machinery=None, fails=[], states=0, transitions=0, events=0, goals=0)
+    wd = tlc.scratch_dir()
+    try:
+        sys.path[:0] = [p for p in (corpus.REPO,) if p not in sys.path]
+        from harness.rec import Recorder
+        from nasim.envs import NASimEnv
+        sp = family_spec(*job["family"])
+        scn = corpus.build_dict_scenario(sp)
+        cs = corpus.cs_of(sp)
+        env0 = NASimEnv(scn, fully_obs=True, flat_actions=True, flat_obs=True)
+        ub = milli(env0.get_score_upper_bound())
+        hops = int(env0.get_minimum_hops())
+        cs["adv_ub"], cs["adv_hops"] = ub, hops
+        res.update(adv_ub=ub, adv_hops=hops)
+        pwd = os.path.join(wd, "plan")
+        os.makedirs(pwd)
+        goals, r = useful_explore(cs, pwd)
+        res.update(states=r.distinct, transitions=r.generated, goals=len(goals))
+        if not goals:
+            res["note"] = "goal unreachable"
+            return res
+        best = max(goals, key=lambda g: g[1])
+        fewest = min(goals, key=lambda g: g[0])
+        res.update(max_score=best[1], min_comp=fewest[0])
+        trace = os.path.join(wd, "trace.ndjson")
+        rec = Recorder(trace, len(cs["hosts"]))
+        for eid, (nc, sc, hist) in enumerate([best, fewest], start=1):
+            rec.create(eid, scn, eid == 2, True, True)
+            rec.reset(eid)
+            total = 0
+            ev = None
+            for k in hist:
+                a = pyref.flat_action(cs, k)
+                ev = rec.step(eid, ("int", k - 1), pyref.draw_for(a["prob"], True, 0))
+                if ev.get("ev") == "step":
+                    total += ev["reward"]
+            e = rec.envs[eid]
+            rec.emit(dict(ev="episode_end", env=eid, term=bool(ev and ev.get("ev") == "step" and ev["term"]),
+                          total=int(total), ub=milli(e.get_score_upper_bound()), hops=int(e.get_minimum_hops()),
+                          fwfree=True, spec_total=sc, spec_ncomp=nc))
+        rec.close()
+        res["events"] = rec.i
+        mon = os.path.join(wd, "mon")
+        os.makedirs(mon)
+        m = tlc.run_monitor(render_scenario_tla(cs), trace, workdir=mon)
+        res["fails"] = [f for f in m.fails() if f[0] != "DRIFT"]
+        res["drift"] = sorted(set(f[1] for f in m.fails() if f[0] == "DRIFT"))
+        if any(f[0] == "C20" for f in res["fails"]):
+            kwd = os.path.join(wd, "kf")
+            os.makedirs(kwd)
+            sig, pw = kf_permwalk(cs, fewest[0], best[1], kwd)
+            res["kf_permwalk"] = sig
+            res["permwalk"] = pw
+            os.makedirs(common.REPLAY_DIR, exist_ok=True)
+            base = os.path.join(common.REPLAY_DIR, "C20-%s" % cs["name"])
+            dynamic.keep_replay(trace, render_scenario_tla(cs), res["fails"], base)
+            res["replay"] = base + ".ndjson"
+    except tlc.TLCError as ex:
+        res["machinery"] = str(ex)[-1500:]
+    except Exception:
+        res["machinery"] = traceback.format_exc()[-1500:]
+    finally:
+        shutil.rmtree(wd, ignore_errors=True)
+        res["wall"] = time.time() - t0
+    return res
+
+
+def check_c20(prop, tier, seed):
+    v = Verdict(prop)
+    t0 = time.time()
+    jobs = [dict(name=f[0], family=f) for f in topo_family(tier)]
+    with mp.get_context("fork").Pool(12) as pool:
+        results = pool.map(c20_job, jobs, chunksize=1)
+    kfs = {k["signature"]: k for k in common.open_findings(prop)}
+    states = transitions = events = 0
+    per = []
+    kf_instances = []
+    for r in results:
+        if r["machinery"]:
+            v.machinery.append("%s: %s" % (r["name"], r["machinery"][-500:]))
+            continue
+        states += r["states"]
+        transitions += r["transitions"]
+        events += r["events"]
+        per.append({k: r.get(k) for k in ("name", "adv_ub", "adv_hops", "max_score", "min_comp", "goals", "states",
+                                          "kf_permwalk", "permwalk")})
+        c20 = [f for f in r["fails"] if f[0] == "C20"]
+        other = [f for f in r["fails"] if f[0] != "C20"]
+        if c20:
+            if r.get("kf_permwalk") and "KF_PermutationWalk" in kfs:
+                kf_instances.append("%s (advertised hops %s, hosts needed %s, best total %s vs bound %s)" % (
+                    r["name"], r["adv_hops"], r["min_comp"], r["max_score"] / 1000.0, r["adv_ub"] / 1000.0))
+            else:
+                v.violation("C20: %s on topology %s: advertised bound %s / hops %s, but a goal-reaching episode of the "
+                            "real environment totals %s with %s compromised hosts" % (
+                                c20[0][1], r["name"], r["adv_ub"] / 1000.0, r["adv_hops"], r["max_score"] / 1000.0,
+                                r["min_comp"]), r.get("replay", "?"))
+        if other:
+            v.violation("C20: replay on %s: %s.%s fails at call %d" % (r["name"], other[0][0], other[0][1], other[0][2]),
+                        r.get("replay", "?"))
+    if kf_instances:
+        v.known.append("%s [seen on: %s]" % (kfs["KF_PermutationWalk"]["what"], "; ".join(kf_instances[:6])
+                                             + (" ... %d topologies" % len(kf_instances) if len(kf_instances) > 6 else "")))
+    cov = dict(states=states, transitions=transitions, traces_validated_against_impl=2 * len(per),
+               recorded_calls=events, evaluations=len(results), distinct_nontrivial=len(per), exhaustive=(tier == "thorough"),
+               rule="for every topology of the family (chains, stars, trees, cycles, several public subnets; thorough: "
+                    "every connected topology over <= 4 subnets x every sensitive set) a real scenario in the cost / "
+                    "value domain is built; TLC explores all state-changing successful actions with the total in the "
+                    "state and reports every goal state; the best-scoring and the fewest-hosts histories are replayed on "
+                    "the real environment and the monitor compares the measured total / decoded host count with what "
+                    "the environment advertises; distinct_nontrivial = topologies",
+               samples=per[:3], per_topology=per, known_findings_matched=len(v.known))
     common.write_evidence(prop, tier, seed, "model_checking", cov, time.time() - t0, len(v.violations))
     return v.finish()
